@@ -42,6 +42,7 @@ fn main() {
         "seq" => data::seq(&args[1..]),
         "typed" => data::typed(&args[1..]),
         "tag" => names::tag(&args[1..]),
+        "filter" => names::filter(&args[1..]),
         "subsys" => names::subsys(&args[1..]),
         other => { eprintln!("unknown scenario {other}"); std::process::exit(2); }
     });
